@@ -462,9 +462,19 @@ impl Property for C13 {
                 for g in &groups {
                     let h = g["transaction"]["hash"].as_str().unwrap_or("").to_string();
                     if last_hash.as_ref() == Some(&h) {
-                        // happens across a page boundary when a filtered-out entry of another transaction lies between
-                        // two runs of the same transaction: the flattened sequence is still exact, so only labelled
-                        obs.label("grouped:same-tx-split-across-pages");
+                        // legitimate only across a page boundary when a filtered-out entry of ANOTHER transaction lies between
+                        // the two runs in the unfiltered sequence; adjacent runs must have been merged into one group
+                        let first_cell = g["cells"].as_array().and_then(|c| c.first().cloned()).unwrap_or(Value::Null);
+                        let first_id = format!("{}:{}:{}:{}:{}", g["transaction"]["hash"], g["block_number"], g["tx_index"], first_cell[1], first_cell[0]);
+                        let unf: Vec<String> = (if q.desc { desc.iter().collect::<Vec<_>>() } else { base.iter().collect::<Vec<_>>() }).iter().map(|o| ident(q, o)).collect();
+                        let pos = unf.iter().position(|x| x == &first_id);
+                        let prev_same = pos.map(|p| p > 0 && unf[p - 1].starts_with(&format!("{}:", g["transaction"]["hash"]))).unwrap_or(false);
+                        // (judged for exact-script searches only: with an args-prefix key the entries of one transaction are
+                        // not contiguous in key order and the same transaction legitimately re-appears per script)
+                        if prev_same && q.cut == 255 && q.key != 250 {
+                            return Err(Failure::new("txs/one-transaction-split-into-two-adjacent-groups", describe(&h)));
+                        }
+                        obs.label("grouped:same-tx-split-across-pages(by a filtered-out entry)");
                     }
                     last_hash = Some(h.clone());
                     for c in g["cells"].as_array().cloned().unwrap_or_default() {
